@@ -876,3 +876,380 @@ Proof.
 Qed.
 
 End Sorted.
+
+(** ** What author links to page sources are rewritten to (C14) *)
+
+Lemma lookup_last_in {A} k : forall (l : list (path * A)) acc v,
+  lookup_last k l acc = Some v -> acc = Some v \/ In (k, v) l.
+Proof.
+  induction l as [|[k' v'] l IH]; intros acc v H; simpl in H; [left; exact H|].
+  destruct (path_eqb k k') eqn:Ek.
+  - apply path_eqb_eq in Ek. subst k'. apply IH in H as [H|H]; [inversion H; subst; right; left; reflexivity | right; right; exact H].
+  - apply IH in H as [H|H]; [left; exact H | right; right; exact H].
+Qed.
+
+(** Every address in [source_to_page_paths] is the address of a page that is written. *)
+Theorem site_lookup_written E fs input M files :
+  generate_static_site E fs input M = Ok files ->
+  exists root t hm h,
+    realpath fs input = ROk root /\ view_root fs root = Some t /\ from_root_directory E t root M = Ok (hm, h) /\
+    forall src wp sc, lookup_last src (source_lookup hm h) None = Some (wp, sc) -> In wp (map fst files).
+Proof.
+  intro Hgen. unfold generate_static_site in Hgen.
+  destruct (realpath fs input) as [root| | |] eqn:Hr; try discriminate.
+  destruct (view_root fs root) as [t|] eqn:Hv; [|discriminate].
+  destruct (from_root_directory E t root M) as [[hm h]|e] eqn:Hb; [|discriminate]. cbn [bind] in Hgen.
+  exists root, t, hm, h. split; [reflexivity|]. split; [exact Hv|]. split; [exact Hb|].
+  unfold write_site in Hgen.
+  destruct (render_all fs hm h (source_lookup hm h) (all_pages hm) []) as [[pages a]|e] eqn:Hra; [|discriminate].
+  cbn [bind] in Hgen. destruct (copy_assets fs a) as [copies|e] eqn:Hca; [|discriminate]. cbn [bind] in Hgen.
+  apply write_all_ok in Hgen. intros src wp sc Hl.
+  apply lookup_last_in in Hl as [Hl|Hl]; [discriminate|].
+  unfold source_lookup in Hl. apply in_flat_map in Hl as (pr & Hpr & Hin).
+  assert (Hw : In (pref_path h pr) (map fst files)).
+  { rewrite Hgen, map_app, in_app_iff. left. rewrite map_fst_pair.
+    rewrite (render_all_paths _ _ _ _ _ _ _ _ Hra). apply in_map. exact Hpr. }
+  destruct pr as [|c|r]; cbn [page_sources pref_path] in *.
+  - apply in_map_iff in Hin as (s0 & Heq & _). inversion Heq; subst. exact Hw.
+  - destruct (cp_servings c); [contradiction|]. apply in_map_iff in Hin as (s0 & Heq & _). inversion Heq; subst. exact Hw.
+  - destruct (deref h r) as [p|]; [|contradiction].
+    destruct (opt_N_eqb (rp_servings p) (rp_native p)); [|contradiction]. destruct Hin as [Heq|[]]. inversion Heq; subst. exact Hw.
+Qed.
+
+(** ** Addresses as "/"-joined parts *)
+
+Definition noslash (x : str) : bool := forallb (fun d => negb (d =? 47)) x.
+
+Lemma split_on_cons_noslash x rest : noslash x = true ->
+  split_on 47 (x ++ 47 :: rest) = x :: split_on 47 rest.
+Proof. intro H. rewrite split_on_app, (split_on_noslash _ _ H). reflexivity. Qed.
+
+Lemma split_join parts : parts <> [] -> forallb noslash parts = true -> split_on 47 (join [47] parts) = parts.
+Proof.
+  induction parts as [|p ps IH]; intros Hne Hall; [congruence|].
+  simpl in Hall. apply andb_true_iff in Hall as [Hp Hps].
+  destruct ps as [|q ps].
+  - simpl. apply split_on_noslash. exact Hp.
+  - change (join [47] (p :: q :: ps)) with (p ++ [47] ++ join [47] (q :: ps)). cbn [app].
+    rewrite split_on_cons_noslash by exact Hp. f_equal. apply IH; [discriminate | exact Hps].
+Qed.
+
+Lemma flat_join rel : forall top x,
+  top ++ flat_map (fun n => c_slash :: n) rel ++ 47 :: x = join [47] (top :: rel ++ [x]).
+Proof.
+  induction rel as [|n rel IH]; intros top x; [reflexivity|].
+  cbn [flat_map app]. change (join [47] (top :: n :: rel ++ [x])) with (top ++ [47] ++ join [47] (n :: rel ++ [x])).
+  rewrite <- (IH n x). unfold c_slash. cbn [app]. rewrite <- !app_assoc. reflexivity.
+Qed.
+
+Lemma dir_prefix_join top rel x :
+  dir_prefix top rel ++ [c_slash] ++ x = join [47] ([] :: top :: rel ++ [x]).
+Proof.
+  unfold dir_prefix. change (join [47] ([] :: top :: rel ++ [x])) with ([] ++ [47] ++ join [47] (top :: rel ++ [x])).
+  rewrite <- flat_join. unfold c_slash. cbn [app]. rewrite <- !app_assoc. reflexivity.
+Qed.
+
+Lemma cat_page_path_join top rel : cat_page_path top rel = join [47] ([] :: top :: rel ++ [s "index.html"]).
+Proof. unfold cat_page_path. change (s "/index.html") with ([c_slash] ++ s "index.html"). apply dir_prefix_join. Qed.
+
+Lemma rec_page_path_join top rel name : rec_page_path top rel name = join [47] ([] :: top :: rel ++ [stem name ++ s ".html"]).
+Proof. unfold rec_page_path. rewrite <- dir_prefix_join. reflexivity. Qed.
+
+(** moving an address to another top: the serving-count substitution of [resolve_local_links] *)
+Lemma retarget from_top from_rest top rest :
+  noslash from_top = true -> forallb noslash from_rest = true -> from_rest <> [] ->
+  noslash top = true -> forallb noslash rest = true -> rest <> [] ->
+  join [47] (firstn 2 (split_on 47 (join [47] ([] :: from_top :: from_rest)))
+             ++ skipn 2 (split_on 47 (join [47] ([] :: top :: rest))))
+  = join [47] ([] :: from_top :: rest).
+Proof.
+  intros H1 H2 H3 H4 H5 H6.
+  rewrite !split_join.
+  all: try discriminate.
+  all: try (cbn [forallb]; rewrite ?H1, ?H2, ?H4, ?H5; reflexivity).
+Qed.
+
+(** ** The entries of [source_to_page_paths] *)
+
+Section LookupForm.
+Variable E : env.
+Variable T : stree.
+
+Lemma cat_paths_form : forall t j sv dp P is_root rel c,
+  pure_dir E j sv t dp P is_root = Ok c ->
+  (forall sv', cat_cpath sv' (P sv') dp is_root = cat_page_path (top_name sv') rel) ->
+  (forall d, In d (tree_dirs t) -> In (rel ++ d) (tree_dirs T)) ->
+  forall c', In (PCat c') (cat_pages c) ->
+    exists d, In d (tree_dirs T) /\ cp_path c' = cat_page_path (top_name sv) d.
+Proof.
+  induction t as [nm d|nm|nm rn es IHes] using stree_ind'; intros j sv dp P is_root rel c Hp Hpre Hdirs c' Hc';
+    try discriminate.
+  rewrite pure_dir_eq in Hp. destruct (enumerate E dp rn es) as [l|e] eqn:Hen; [|discriminate]. cbn [bind] in Hp. cbv zeta in Hp.
+  set (mes0 := dir_mes P dp (l_title l) is_root) in *.
+  destruct (psubs (fun e p => pure_dir E j sv e p mes0 false) dp es) as [cs|e] eqn:Hcs; [|discriminate]. cbn [bind] in Hp.
+  destruct (pure_refs E sv j dp mes0 (l_recipes l)) as [refs|e]; [|discriminate]. cbn [bind] in Hp. inversion Hp; subst c. clear Hp.
+  assert (Hme : forall sv', chain_path (mes0 sv') = cat_page_path (top_name sv') rel).
+  { intro sv'. unfold mes0, dir_mes, dir_me. rewrite chain_path_snoc. apply Hpre. }
+  unfold dir_page in Hc'. cbn [cat_pages] in Hc'. destruct Hc' as [Heq|Hc'].
+  - inversion Heq; subst c'. cbn [cp_path]. exists rel. split; [|apply Hpre].
+    rewrite <- (app_nil_r rel). apply Hdirs. apply tree_dirs_nil.
+  - apply in_app_or in Hc' as [Hc'|Hc'].
+    + apply in_flat_map in Hc' as (sc & Hsc & Hc'). apply in_sort_by in Hsc.
+      apply (psubs_in _ dp es cs Hcs) in Hsc as (dn & drn & des & Hine & Hpe).
+      rewrite Forall_forall in IHes.
+      apply (IHes _ Hine j sv (dp ++ [dn]) mes0 false (rel ++ [dn]) sc Hpe); auto.
+      * intro sv'. unfold cat_cpath, cat_seg. rewrite Hme, last_snoc. unfold cat_page_path at 1.
+        rewrite href_parent_index. unfold cat_page_path. rewrite dir_prefix_snoc, <- !app_assoc. reflexivity.
+      * intros d0 Hd0. rewrite <- app_assoc. apply Hdirs. cbn [app]. eapply tree_dirs_sub; eassumption.
+    + destruct sv; [|contradiction]. apply in_map_iff in Hc' as (r & Heq & _). discriminate.
+Qed.
+
+End LookupForm.
+
+(** ** Names without "/" *)
+
+Fixpoint names_noslash (t : stree) : Prop :=
+  match t with
+  | SDir _ _ es => Forall (fun e => noslash (sname e) = true) es /\
+                   (fix all (l : list stree) : Prop := match l with [] => True | e :: r => names_noslash e /\ all r end) es
+  | _ => True
+  end.
+
+Lemma names_noslash_dir nm rn es :
+  names_noslash (SDir nm rn es) <-> Forall (fun e => noslash (sname e) = true) es /\ Forall names_noslash es.
+Proof.
+  cbn [names_noslash]. split; intros [H1 H2]; split; try exact H1.
+  - clear H1. induction es as [|e r IH]; [constructor|]. destruct H2 as [He Hr]. constructor; [exact He | apply IH; exact Hr].
+  - clear H1. induction H2 as [|e r He Hr IH]; [exact I | split; assumption].
+Qed.
+
+Lemma noslash_app a b : noslash (a ++ b) = noslash a && noslash b.
+Proof. unfold noslash. apply forallb_app. Qed.
+
+Lemma tree_dirs_noslash : forall t, names_noslash t -> forall d, In d (tree_dirs t) -> forallb noslash d = true.
+Proof.
+  induction t as [nm dt|nm|nm rn es IHes] using stree_ind'; intros Hn d Hd; try contradiction.
+  apply names_noslash_dir in Hn as [Hnames Hsub]. cbn [tree_dirs] in Hd. destruct Hd as [Heq|Hd]; [subst d; reflexivity|].
+  apply in_flat_map in Hd as (e & Hine & Hd). destruct e as [fn fd|bn|dn drn des]; try contradiction.
+  apply in_map_iff in Hd as (d' & Heq & Hd'). subst d. rewrite Forall_forall in *. cbn [forallb].
+  rewrite (Hnames _ Hine : noslash dn = true). cbn [andb]. apply (IHes _ Hine); [apply Hsub; exact Hine | exact Hd'].
+Qed.
+
+Lemma tree_recipes_noslash : forall t, names_noslash t -> forall x, In x (tree_recipes t) ->
+  forallb noslash (fst (fst x)) = true /\ noslash (snd (fst x)) = true.
+Proof.
+  induction t as [nm dt|nm|nm rn es IHes] using stree_ind'; intros Hn x Hx; try contradiction.
+  apply names_noslash_dir in Hn as [Hnames Hsub]. cbn [tree_recipes] in Hx. apply in_app_or in Hx as [Hx|Hx].
+  - apply in_map_iff in Hx as ([name data] & Heq & Hin). subst x. cbn [fst snd]. split; [reflexivity|].
+    apply dir_recipes_names in Hin as (e & He & Hname & _). subst name. rewrite Forall_forall in Hnames. apply Hnames. exact He.
+  - apply in_flat_map in Hx as (e & Hine & Hx). destruct e as [fn fd|bn|dn drn des]; try contradiction.
+    apply in_map_iff in Hx as (x' & Heq & Hx'). subst x. cbn [fst snd forallb]. rewrite Forall_forall in *.
+    rewrite (Hnames _ Hine : noslash dn = true). cbn [andb]. apply (IHes _ Hine); [apply Hsub; exact Hine | exact Hx'].
+Qed.
+
+Lemma rsplit_dot_rev_spec : forall r acc h t, rsplit_dot_rev r acc = Some (h, t) -> rev r ++ acc = h ++ c_dot :: t.
+Proof.
+  induction r as [|c r IH]; intros acc h t H; simpl in H; [discriminate|].
+  destruct (c =? c_dot) eqn:Ec.
+  - apply N.eqb_eq in Ec. subst c. inversion H; subst. simpl. rewrite <- app_assoc. reflexivity.
+  - apply IH in H. simpl. rewrite <- app_assoc. exact H.
+Qed.
+
+Lemma stem_noslash name : noslash name = true -> noslash (stem name) = true.
+Proof.
+  intro H. unfold stem, rsplit_dot. destruct (rsplit_dot_rev (rev name) []) as [[h t]|] eqn:E; [|reflexivity].
+  apply rsplit_dot_rev_spec in E. rewrite rev_involutive, app_nil_r in E. rewrite E, noslash_app in H.
+  apply andb_true_iff in H as [H _]. exact H.
+Qed.
+
+Lemma digits_noslash : forall fuel n acc, noslash acc = true -> noslash (digits_fuel fuel n acc) = true.
+Proof.
+  induction fuel as [|f IH]; intros n acc H; simpl; [exact H|].
+  assert (Hd : noslash ((48 + n mod 10) :: acc) = true).
+  { unfold noslash in *. cbn [forallb]. rewrite H. rewrite andb_true_r. apply negb_true_iff. apply N.eqb_neq.
+    intro Heq. assert (Hz : n mod 10 = 47 - 48) by (rewrite <- Heq; rewrite N.add_comm, N.add_sub; reflexivity).
+    change (47 - 48) with 0 in Hz. rewrite Hz in Heq. discriminate. }
+  destruct (n / 10 =? 0); [exact Hd | apply IH; exact Hd].
+Qed.
+
+Lemma serves_noslash n : noslash (serves_name n) = true.
+Proof. unfold serves_name. rewrite noslash_app. apply andb_true_iff. split; [reflexivity|]. apply digits_noslash. reflexivity. Qed.
+
+Lemma top_noslash sv : noslash (top_name sv) = true.
+Proof. destruct sv; [apply serves_noslash | reflexivity]. Qed.
+
+(** ** Author links to page sources lead to written pages, at the current serving count *)
+
+Section AuthorLinks.
+Variable E : env.
+
+Lemma stored_page2 mes src data Mn m k p :
+  expected_final E mes src data Mn = Some m -> In (k, p) m ->
+  rp_servings p = k /\ rp_native p = native_of E data.
+Proof.
+  unfold expected_final, expected, native_of. destruct Mn as [|Mn]; [discriminate|].
+  destruct (compile_recipe E data true false) as [doc|e]; [|discriminate].
+  destruct (d_title doc) as [title|]; [|discriminate].
+  destruct (d_servings doc) as [nv|].
+  - destruct (nv =? 0); [discriminate|].
+    change (N_seq 1 (S Mn)) with (1 :: N_seq (1 + 1) Mn). cbn [map].
+    change (1 :: N_seq (1 + 1) Mn) with (N_seq 1 (S Mn)).
+    match goal with |- Some ((?a, ?b) :: map ?f ?l) = _ -> _ => change ((a, b) :: map f l) with (map f (N_seq 1 (S Mn))) end.
+    intros Hm Hin.
+    match type of Hm with Some (map ?f ?l) = _ => assert (Hmm : m = map f l) by (inversion Hm; reflexivity) end.
+    rewrite Hmm in Hin. apply in_map_iff in Hin as (i & Heq & Hi).
+    assert (Hk : k = Some i) by (inversion Heq; reflexivity).
+    assert (Hpp : p = mk_page title (mes (Some i)) (Some i) (Some nv) src doc (mk_factor i nv)) by (inversion Heq; reflexivity).
+    subst k p. split; reflexivity.
+  - cbn. intros Hm Hin. inversion Hm; subst m. destruct Hin as [Heq|[]]. inversion Heq; subst k p. split; reflexivity.
+Qed.
+
+Lemma starts_serves_assets x : starts_with (s "/serves") (assets_dir ++ x) = false.
+Proof. reflexivity. Qed.
+
+Theorem site_author_links fs input M files root t :
+  generate_static_site E fs input M = Ok files ->
+  realpath fs input = ROk root -> view_root fs root = Some t -> uniq_names t -> names_noslash t -> 1 <= M ->
+  exists hm h, from_root_directory E t root M = Ok (hm, h) /\
+    forall f po, In (f, CPageOut po) files ->
+    forall src wp sc, lookup_last src (source_lookup hm h) None = Some (wp, sc) ->
+      In (page_target f wp sc) (map fst files).
+Proof.
+  intros Hgen Hroot Hview Hu Hns HM.
+  pose proof (site_files_spec E fs input M files root t Hgen Hroot Hview Hu HM) as Hspec.
+  assert (Hw : forall g, In g (site_page_paths E M t) -> In g (map fst files)) by (intros g Hg; apply Hspec; left; exact Hg).
+  destruct (site_lookup_written E fs input M files Hgen) as (root' & t' & hm & h & Hr' & Hv' & Hb & Hlw).
+  rewrite Hroot in Hr'. inversion Hr'; subst root'. rewrite Hview in Hv'. inversion Hv'; subst t'. clear Hr' Hv'.
+  exists hm, h. split; [exact Hb|]. intros f po Hf src wp sc Hl.
+  unfold page_target. destruct (starts_with (s "/serves") f && sc && (2 <? List.length (split_on c_slash wp))%nat) eqn:Hcond;
+    [|eapply Hlw; exact Hl].
+  apply andb_true_iff in Hcond as [Hcond Hlen]. apply andb_true_iff in Hcond as [Hsv Hsc]. subst sc.
+  (* [f] is a page below /serves<n> *)
+  assert (Hf' : In f (site_page_paths E M t)).
+  { destruct (proj1 (Hspec f)) as [Hp|(sr & dt & Hc)]; [apply in_map_iff; exists (f, CPageOut po); auto | exact Hp|].
+    exfalso. destruct (site_copies_inside E fs input M files f sr dt Hgen Hc) as (_ & _ & rel & _ & _ & _ & _ & Hd & _).
+    rewrite Hd in Hsv. rewrite starts_serves_assets in Hsv. discriminate. }
+  assert (Hfform : exists n rest, 1 <= n <= M /\ rest <> [] /\ forallb noslash rest = true /\
+                     f = join [47] ([] :: serves_name n :: rest)).
+  { unfold site_page_paths in Hf'. destruct Hf' as [Heq|[Heq|Hf']]; [subst f; discriminate | subst f; discriminate|].
+    apply in_app_or in Hf' as [Hf'|Hf'].
+    - apply in_flat_map in Hf' as (sv & Hsv' & Hd). apply in_map_iff in Hd as (d & Heq & Hd). subst f.
+      apply in_app_or in Hsv' as [Hsv'|[Hsv'|[]]]; [|subst sv; discriminate].
+      apply in_map_iff in Hsv' as (n & Heq & Hn). subst sv. apply N_seq_in in Hn.
+      exists n, (d ++ [s "index.html"]). split; [lia|]. split; [destruct d; discriminate|]. split.
+      + rewrite forallb_app, (tree_dirs_noslash t Hns d Hd). reflexivity.
+      + apply cat_page_path_join.
+    - apply in_app_or in Hf' as [Hf'|Hf'].
+      + apply in_flat_map in Hf' as (n & Hn & Hx). apply in_map_iff in Hx as (x & Heq & Hx). subst f.
+        apply filter_In in Hx as [Hx _]. apply N_seq_in in Hn.
+        destruct (tree_recipes_noslash t Hns x Hx) as [H1 H2].
+        exists n, (fst (fst x) ++ [stem (snd (fst x)) ++ s ".html"]). split; [lia|]. split; [destruct (fst (fst x)); discriminate|]. split.
+        * rewrite forallb_app, H1. cbn [forallb]. rewrite noslash_app, (stem_noslash _ H2). reflexivity.
+        * apply rec_page_path_join.
+      + apply in_map_iff in Hf' as (x & Heq & _). subst f. discriminate. }
+  destruct Hfform as (n & frest & Hn & Hfne & Hfns & Hfeq).
+  (* [wp] is a category page of /categories or the native page of a recipe that states its servings *)
+  apply lookup_last_in in Hl as [Hl|Hl]; [discriminate|].
+  unfold source_lookup in Hl. apply in_flat_map in Hl as (pr & Hpr & Hin).
+  (* structure of the hierarchy *)
+  pose proof (from_root_directory_pure E t root M Hu) as Hpure.
+  destruct (pure_root E t root M) as [hm'|e] eqn:Hp; [|rewrite Hb in Hpure; discriminate].
+  destruct Hpure as (h0 & Hb0 & Hfin). rewrite Hb in Hb0. inversion Hb0; subst hm' h0. clear Hb0.
+  unfold pure_root in Hp. destruct t as [nm d|nm|nm rn es]; try discriminate.
+  unfold final_heap_ok in Hfin.
+  destruct (enumerate E root rn es) as [l|e] eqn:Hen; [|discriminate]. cbn [bind] in Hp.
+  set (P := fun _ : option N => [(l_title l, home_path)]) in *.
+  destruct (pure_scaled E (SDir nm rn es) root P 0 (N.to_nat M)) as [sc|e] eqn:Hsc'; [|discriminate].
+  cbn [bind] in Hp. destruct (pure_dir E (N.to_nat M) None (SDir nm rn es) root P true) as [un|e] eqn:Hun; [|discriminate].
+  cbn [bind] in Hp. inversion Hp; subst hm. clear Hp.
+  set (T := SDir nm rn es) in *.
+  assert (Hpre : forall sv', cat_cpath sv' (P sv') root true = cat_page_path (top_name sv') []).
+  { intro sv'. apply root_prefix_ok. }
+  assert (HchP : forall sv', chain_ok T sv' (P sv')).
+  { intros sv' tp [Heq|[]]. subst tp. left. reflexivity. }
+  assert (Hdirs0 : forall d, In d (tree_dirs T) -> In ([] ++ d) (tree_dirs T)) by (intros; assumption).
+  assert (Htarget : forall top rest, noslash top = true -> forallb noslash rest = true -> rest <> [] ->
+            wp = join [47] ([] :: top :: rest) ->
+            join [c_slash] (firstn 2 (split_on c_slash f) ++ skipn 2 (split_on c_slash wp))
+              = join [47] ([] :: serves_name n :: rest)).
+  { intros top rest H1 H2 H3 Hwp. rewrite Hfeq, Hwp. unfold c_slash.
+    apply retarget; auto. apply serves_noslash. }
+  destruct pr as [|c|r]; cbn [page_sources] in Hin.
+  - (* home page: never moved (its address has two parts) *)
+    cbn [h_welcome_src] in Hin. apply in_map_iff in Hin as (s0 & Heq & _). inversion Heq; subst wp. discriminate.
+  - destruct (cp_servings c) eqn:Hcs; [contradiction|]. apply in_map_iff in Hin as (s0 & Heq & _). inversion Heq; subst wp. clear Heq.
+    (* which top? the unscaled one *)
+    assert (Hcu : In (PCat c) (cat_pages un)).
+    { unfold all_pages in Hpr. cbn [h_scaled h_unscaled] in Hpr. destruct Hpr as [Heq|Hpr]; [discriminate|].
+      apply in_app_or in Hpr as [Hpr|Hpr]; [|exact Hpr]. exfalso.
+      apply in_flat_map in Hpr as ([k ck] & Hk & Hin'). cbn [snd] in Hin'.
+      apply (pure_scaled_in E _ _ _ _ _ _ Hsc') in Hk as (j & _ & _ & Hpd). cbn [snd] in Hpd.
+      destruct (cat_chains E T T j (Some (N.of_nat (S j))) root P true [] ck Hpd Hpre HchP Hdirs0 c Hin') as [_ Hs].
+      congruence. }
+    destruct (cat_paths_form E T T (N.to_nat M) None root P true [] un Hun Hpre Hdirs0 c Hcu) as (d & Hd & Hcp).
+    rewrite (Htarget (s "categories") (d ++ [s "index.html"])).
+    + apply Hw. rewrite <- cat_page_path_join. apply (top_in_paths E M T (Some n) d Hd). exact Hn.
+    + reflexivity.
+    + rewrite forallb_app, (tree_dirs_noslash T Hns d Hd). reflexivity.
+    + destruct d; discriminate.
+    + rewrite Hcp. apply cat_page_path_join.
+  - destruct (deref h r) as [p|] eqn:Hd; [|contradiction].
+    destruct (opt_N_eqb (rp_servings p) (rp_native p)) eqn:Heqb; [|contradiction]. apply opt_N_eqb_eq in Heqb.
+    destruct Hin as [Heq|[]]. inversion Heq as [[Hs0 Hwp Hflag]]. clear Heq.
+    destruct (rp_native p) as [nv|] eqn:Hnat; [|discriminate]. clear Hflag.
+    (* the page is stored for a source of the tree *)
+    assert (HMn : (1 <= N.to_nat M)%nat) by lia.
+    assert (Hsrc : exists src' data mes m k, In (src', data, mes) (asources E T root P true) /\
+                     heap_get src' h = Some m /\ In (k, p) m).
+    { unfold all_pages in Hpr. cbn [h_scaled h_unscaled] in Hpr. destruct Hpr as [Heq|Hpr]; [discriminate|].
+      assert (Htop : exists j ctop, pure_dir E j (Some (N.of_nat (S j))) T root P true = Ok ctop /\ In (PRec r) (cat_pages ctop)).
+      { apply in_app_or in Hpr as [Hpr|Hpr].
+        - apply in_flat_map in Hpr as ([k ck] & Hk & Hin'). cbn [snd] in Hin'.
+          apply (pure_scaled_in E _ _ _ _ _ _ Hsc') in Hk as (j & _ & _ & Hpd). cbn [snd] in Hpd. eauto.
+        - exfalso. clear - Hpr Hun Hpre HchP Hdirs0.
+          assert (Hno : forall c0, (forall c', In (PCat c') (cat_pages c0) -> cp_servings c' = None) -> ~ In (PRec r) (cat_pages c0)).
+          { induction c0 as [t0 pa cpth sv0 d0 ds sd subs recs IH] using cpage_ind'. intros Hall Hin.
+            cbn [cat_pages] in Hin. destruct Hin as [Heq|Hin]; [discriminate|].
+            apply in_app_or in Hin as [Hin|Hin].
+            - apply in_flat_map in Hin as (sc0 & Hsc0 & Hin). rewrite Forall_forall in IH.
+              apply (IH sc0 Hsc0); [|exact Hin]. intros c' Hc'. apply Hall.
+              cbn [cat_pages]. right. apply in_or_app. left. apply in_flat_map. exists sc0. auto.
+            - specialize (Hall _ (or_introl eq_refl)). cbn [cp_servings] in Hall. subst sv0. contradiction. }
+          apply (Hno un); [|exact Hpr]. intros c' Hc'.
+          destruct (cat_chains E T T (N.to_nat M) None root P true [] un Hun Hpre HchP Hdirs0 c' Hc') as [_ Hs]. exact Hs. }
+      destruct Htop as (j & ctop & Hpd & Hinc).
+      assert (Hloc : exists c', In (PCat c') (cat_pages ctop) /\ In r (cp_recipes c')).
+      { clear - Hinc. induction ctop as [t0 pa cpth sv0 d0 ds sd subs recs IH] using cpage_ind'.
+        cbn [cat_pages] in Hinc. destruct Hinc as [Heq|Hinc]; [discriminate|].
+        apply in_app_or in Hinc as [Hinc|Hinc].
+        - apply in_flat_map in Hinc as (sc0 & Hsc0 & Hinc). rewrite Forall_forall in IH.
+          destruct (IH sc0 Hsc0 Hinc) as (c' & H1 & H2). exists c'. split; [|exact H2].
+          cbn [cat_pages]. right. apply in_or_app. left. apply in_flat_map. exists sc0. auto.
+        - destruct sv0 as [n0|]; [|contradiction]. apply in_map_iff in Hinc as (r0 & Heq & Hr0). inversion Heq; subst r0.
+          exists (CPage t0 pa cpth (Some n0) d0 ds sd subs recs). split; [left; reflexivity | exact Hr0]. }
+      destruct Hloc as (c' & Hc' & Hr).
+      destruct (cat_pages_recs_inv E T j (N.of_nat (S j)) root P true ctop Hpd eq_refl c' r Hc' Hr)
+        as (dp' & nd & doc & title & mes & Hin & _ & _ & _ & Hreq & _).
+      unfold deref in Hd. rewrite Hreq in Hd. unfold scaled_ref in Hd. cbn [rr_source rr_key] in Hd.
+      destruct (heap_get (dp' ++ [fst nd]) h) as [m|] eqn:Hm; [|discriminate].
+      apply sc_get_in in Hd. exists (dp' ++ [fst nd]), (snd nd), mes, m. eexists. split; [exact Hin|]. split; [exact Hm | exact Hd]. }
+    destruct Hsrc as (src' & data & mes & m & k & Hin & Hm & Hkp).
+    destruct (asources_facts E T T root P true [] Hpre HchP Hdirs0 src' data mes Hin) as (x & Hx & Hsrc' & Hdata & Hcp & _).
+    rewrite (Hfin src' data mes Hin) in Hm.
+    destruct (stored_page E mes src' data (N.to_nat M) m k p Hm Hkp) as [Hps Hcase].
+    destruct (stored_page2 mes src' data (N.to_nat M) m k p Hm Hkp) as [Hserv Hnative].
+    destruct Hcase as [(i & Hk & Hi & Hpar & Hscal)|(Hk & _ & _)]; [|congruence].
+    assert (Hwp' : wp = rec_page_path (serves_name i) (fst (fst x)) (snd (fst x))).
+    { rewrite <- Hwp. unfold rpage_path. rewrite Hpar, Hcp, Hps, Hsrc'. unfold cat_page_path at 1.
+      rewrite href_parent_index, last_snoc. reflexivity. }
+    destruct (tree_recipes_noslash T Hns x Hx) as [H1 H2].
+    rewrite Hwp. rewrite (Htarget (serves_name i) (fst (fst x) ++ [stem (snd (fst x)) ++ s ".html"])).
+    + apply Hw. rewrite <- rec_page_path_join. apply (rec_in_paths E M T x (Some n) Hx). split; [exact Hn|].
+      subst data. exact Hscal.
+    + apply serves_noslash.
+    + rewrite forallb_app, H1. cbn [forallb]. rewrite noslash_app, (stem_noslash _ H2). reflexivity.
+    + destruct (fst (fst x)); discriminate.
+    + rewrite Hwp'. apply rec_page_path_join.
+Qed.
+
+End AuthorLinks.
